@@ -11,9 +11,11 @@
     Statement.Commit / commitEvict / commitAllocate) issues one Cache call per
     valid operation, in order, under a failure oracle [faults] saying which Evict
     and which Bind calls of the commit return an error: a refused eviction is
-    logged, Statement.unevict is called with the status the pod has at commit
-    time (so the pod stays Releasing, or nominated, in the session) and the loop
-    goes on; a refused bind cleans up, clears the operations and returns.  [run_scenario] is the
+    logged, the evict operation is reversed (repair 5a5de9a: the pod gets back the
+    status and GPU groups it had before it was evicted; before that repair it
+    kept the status it had at commit time, i.e. stayed Releasing or nominated
+    in the session: [run_scenario_gen [] true false]) and the loop goes on; a
+    refused bind cleans up, clears the operations and returns.  [run_scenario] is the
     commit in which no call fails; [VEvict] is an eviction the cluster accepted,
     [VEvictFailed] one it refused.
 
@@ -68,19 +70,24 @@ Print Assumptions C06_victim_eligible_partial.
     ([evict_call_of x t a' p']: x = VEvict t a' p' or x = VEvictFailed t a' p'), is
     an eviction of the same scenario's commit without failures ([as_accepted] turns
     a refused call into the accepted one: failures only refuse calls, they add,
-    drop and reorder none) and is eligible as above. *)
+    drop and reorder none) and is eligible as above - with the live pods of the
+    min-runtime conjunct counted in the session [s'] the commit REALLY leaves
+    under the oracle (a refused victim is back to its pre-eviction status there),
+    and also in the session [s0] the commit without failures leaves. *)
 Theorem C06_victim_eligible_any_faults :
   forall f env a s pre sc sim calls s' x t a' p',
     run_scenario_f f env a s pre sc sim = Committed calls s' ->
     evict_call_of x t a' p' -> In x calls ->
     a' = a /\ p' = pre
+    /\ victim_eligible_at (fun a => a <> AConsolidation) env a s s' pre t
     /\ exists s0, run_scenario env a s pre sc sim = Committed (map as_accepted calls) s0
          /\ victim_eligible_at (fun a => a <> AConsolidation) env a s s0 pre t.
 Proof. exact victim_eligible_faults. Qed.
 Print Assumptions C06_victim_eligible_any_faults.
 
 (** The same for every commit of every run of an action (any scenario order, any
-    failure oracle per commit; [sj]: the session the commit leaves when no call fails). *)
+    failure oracle per commit; [si]: the session the statement was built in, [sj]:
+    the session the commit really leaves under its oracle and the action goes on from). *)
 Theorem C06_victim_eligible_every_commit :
   forall env s steps cs sf,
     run_steps env s steps = Some (cs, sf) ->
@@ -88,6 +95,7 @@ Theorem C06_victim_eligible_every_commit :
     forall x t a' p', evict_call_of x t a' p' -> In x calls ->
     a' = sp_action st /\ p' = sp_preemptor st
     /\ exists si sj, ss_jobs si = ss_jobs s
+         /\ run_scenario_f (sp_faults st) env (sp_action st) si (sp_preemptor st) (sp_scenario st) (sp_sim st) = Committed calls sj
          /\ victim_eligible_at (fun a => a <> AConsolidation) env (sp_action st) si sj (sp_preemptor st) t.
 Proof. exact victim_eligible_cycle. Qed.
 Print Assumptions C06_victim_eligible_every_commit.
@@ -128,12 +136,12 @@ Print Assumptions C06_eviction_has_purpose_every_commit.
 
 (** The theorem depends on the loop carrying on after a refused eviction: with a
     Commit that clears its operations and returns at the first refused eviction
-    ([run_scenario_gen [] false]) there is a commit with an accepted eviction and
+    ([run_scenario_gen [] false true]) there is a commit with an accepted eviction and
     no nomination at all (witness [ex_stop_at_refused_eviction]: two victims, the
     second Evict call refused). *)
 Theorem C06_commit_must_carry_on_after_refused_eviction :
   exists f env a s pre sc sim calls s' t,
-    run_scenario_gen [] false f env a s pre sc sim = Committed calls s'
+    run_scenario_gen [] false true f env a s pre sc sim = Committed calls s'
     /\ In (VEvict t a pre) calls /\ forall t' n gs, ~ In (VPipe t' n gs) calls.
 Proof. exact commit_must_carry_on. Qed.
 Print Assumptions C06_commit_must_carry_on_after_refused_eviction.
@@ -153,14 +161,51 @@ Print Assumptions C06_evicting_commits_never_bind.
     were a statement to evict and then allocate, the operations behind the refused
     bind - nominations included - would be dropped behind an accepted eviction. *)
 Theorem C06_refused_bind_ends_the_commit :
-  (forall c f a pre kb ke s t n gs r,
+  (forall c rs f a pre kb ke s t n gs r,
      f_bind f kb = true ->
-     commit_run c f a pre ke kb s (SAlloc t n gs :: r) = ([VBindFailed t n gs], unallocate_state s t n))
-  /\ fst (commit_run true (mkF (fun _ => false) (fun _ => true)) APreempt 3 0 0 (ex_state 18720 75 2)
+     commit_run c rs f a pre ke kb s (SAlloc t n gs :: r) = ([VBindFailed t n gs], unallocate_state s t n))
+  /\ fst (commit_run true true (mkF (fun _ => false) (fun _ => true)) APreempt 3 0 0 (ex_state 18720 75 2)
                       [SEvict 1 Running [] 1 true; SAlloc 3 1 []; SPipe 3 2 []])
      = [VEvict 1 APreempt 3; VBindFailed 3 1 []].
 Proof. split; [exact commit_run_failed_bind | exact ex_refused_bind]. Qed.
 Print Assumptions C06_refused_bind_ends_the_commit.
+
+(** ** 2b. A refused eviction takes nothing from the pod (repair 5a5de9a) *)
+
+(** For every failure oracle, scenario and placement: a pod whose eviction the
+    cluster refused has, in the session the commit leaves, the status and GPU groups
+    it had when the scenario started - whatever the statement did to it in between
+    (evicted, nominated elsewhere) - and that status is not Releasing: it is not
+    left terminating in the session, is counted as live again, and its resources
+    are not handed out as "releasing" for the rest of the cycle. *)
+Theorem C06_refused_eviction_restores :
+  forall f env a s pre sc sim calls s' t a' p',
+    run_scenario_f f env a s pre sc sim = Committed calls s' ->
+    In (VEvictFailed t a' p') calls ->
+    exists tk tk', get_task (ss_tasks s) t = Some tk /\ get_task (ss_tasks s') t = Some tk'
+      /\ vt_status tk' = vt_status tk /\ vt_groups tk' = vt_groups tk /\ vt_status tk' <> Releasing.
+Proof. exact refused_eviction_restores. Qed.
+Print Assumptions C06_refused_eviction_restores.
+
+(** Before repair 5a5de9a ([run_scenario_gen [] true false]: Statement.unevict called
+    with the status read at commit time) the statement was false: the refused pod
+    stayed Releasing (witness [ex_refused_eviction_before_repair]; this is what let
+    the GPU groups of an abandoned nomination leak: C13). *)
+Theorem C06_refused_eviction_restores_before_repair : ~ refused_eviction_restores_statement false.
+Proof. exact refused_eviction_restores_before_repair. Qed.
+Print Assumptions C06_refused_eviction_restores_before_repair.
+
+Theorem C06_refused_eviction_restores_every_commit :
+  forall env s steps cs sf,
+    run_steps env s steps = Some (cs, sf) ->
+    forall st calls, In (st, calls) cs ->
+    forall t a' p', In (VEvictFailed t a' p') calls ->
+    exists si sj, ss_jobs si = ss_jobs s
+      /\ run_scenario_f (sp_faults st) env (sp_action st) si (sp_preemptor st) (sp_scenario st) (sp_sim st) = Committed calls sj
+      /\ exists tk tk', get_task (ss_tasks si) t = Some tk /\ get_task (ss_tasks sj) t = Some tk'
+           /\ vt_status tk' = vt_status tk /\ vt_groups tk' = vt_groups tk /\ vt_status tk' <> Releasing.
+Proof. exact refused_eviction_restores_cycle. Qed.
+Print Assumptions C06_refused_eviction_restores_every_commit.
 
 (** ** 3. Consolidation evicts a pod only if the same commit re-places it elsewhere *)
 
@@ -245,8 +290,11 @@ Print Assumptions C06_lca_picks_documented_queue.
 
 (** ** Non-vacuity: commits with evictions exist for each action; an elastic
     victim inside its min-runtime loses its surplus pod and nothing more; a commit
-    with an accepted and a refused eviction still nominates the pending job; the
-    design document's examples resolve as documented on an acyclic tree. *)
+    with an accepted and a refused eviction still nominates the pending job and
+    leaves the refused pod Running; a consolidation victim that the statement moved
+    to node 1 and whose eviction is refused is Running again - with the new node's
+    name (Statement.unevict does not restore NodeName); the design document's
+    examples resolve as documented on an acyclic tree. *)
 Theorem C06_nonvacuous :
   (exists s', run_scenario ex_env APreempt (ex_state 18720 75 2) 3 (mkSc [] [1%positive] [1%positive] 0 true)
                 [(3%positive, 1%positive, [])] = Committed [VEvict 1 APreempt 3; VPipe 3 1 []] s')
@@ -259,14 +307,20 @@ Theorem C06_nonvacuous :
   /\ run_scenario ex_env APreempt ex_elastic 3 (mkSc [] [1%positive; 2%positive] [1%positive; 2%positive] 0 true)
                   [(3%positive, 1%positive, [])] = Discarded
   /\ (exists s', run_scenario_f ex_second_evict_fails ex_env APreempt (ex_state 18720 75 2) 3 ex_gang_scenario [(3%positive, 1%positive, [])]
-                 = Committed [VEvict 1 APreempt 3; VEvictFailed 2 APreempt 3; VPipe 3 1 []] s')
+                 = Committed [VEvict 1 APreempt 3; VEvictFailed 2 APreempt 3; VPipe 3 1 []] s'
+                 /\ get_task (ss_tasks s') 2 = Some (mkVT 2 2 2 Running (Some 2%positive) [] false))
+  /\ (exists s', run_scenario_f (mkF (fun _ => true) (fun _ => false)) ex_env AConsolidation (ex_state 2400 50 2) 3
+                   (mkSc [] [2%positive] [2%positive] 0 true) [(3%positive, 2%positive, []); (2%positive, 1%positive, [])]
+                 = Committed [VEvictFailed 2 AConsolidation 3; VPipe 3 2 []; VPipe 2 1 []] s'
+                 /\ get_task (ss_tasks s') 2 = Some (mkVT 2 2 2 Running (Some 1%positive) [] false))
   /\ acyclic doc_tree
   /\ resolve_reclaim true (fuel_of doc_tree) doc_tree 7 (qlookup doc_tree 5) (qlookup doc_tree 7) = Dur 60
   /\ resolve_reclaim true (fuel_of doc_tree) doc_tree 7 (qlookup doc_tree 7) (qlookup doc_tree 5) = Dur 600.
 Proof.
   split; [exact ex_preempt_commit|]. split; [exact ex_reclaim_commit|]. split; [exact ex_preempt_inside_refused|].
   destruct ex_elastic_surplus as (H1 & H2 & _). split; [exact H1|]. split; [exact H2|].
-  split; [eexists; exact ex_refused_eviction|].
+  split; [eexists; split; [exact ex_refused_eviction | reflexivity]|].
+  split; [eexists; split; [exact ex_refused_moved | reflexivity]|].
   split; [exact doc_tree_acyclic|]. destruct doc_tree_examples as (E1 & _ & E3 & _). auto.
 Qed.
 Print Assumptions C06_nonvacuous.
